@@ -48,8 +48,8 @@ def collect(d, only):
     return items
 
 
-def expected_alarms(d):
-    f = VERIF / d / "EXPECTED-ALARMS.txt"
+def expected_alarms(d, fname="EXPECTED-ALARMS.txt"):
+    f = VERIF / d / fname
     if not f.exists():
         return set()
     return {l.split()[0] for l in f.read_text().splitlines() if l.strip() and not l.startswith("#")}
@@ -92,6 +92,8 @@ def main():
             verdict = "ok" if got == expect else "UNEXPECTED"
             if expect == "silent" and got == "violation" and not concrete and name in expected_alarms(a.dir):
                 verdict = "ok(expected-alarm)"
+            if expect == "violation" and got == "silent" and name in expected_alarms(a.dir, "EXPECTED-SILENT.txt"):
+                verdict = "ok(expected-silent)"
             rows.append((prop, name, f"{verdict}:{got}{'(concrete)' if concrete else ''} rc={rc} {base}", (viol[0] if viol else "")[:160]))
             print("#", *rows[-1], flush=True)
         finally:
